@@ -22,6 +22,8 @@ static void wick_run(Ctx& c) {
         m.sites.push_back(s); modes += s.norb * s.nspin;
     }
     m.beta = r.logu(0.3, c.thorough() ? 60.0 : 20.0);
+    const bool cold = (c.k % 6 == 5);        // beta*(level spacing) of many hundreds: Boltzmann factors under/overflow, the vertex must still vanish
+    if (cold) m.beta = r.logu(150, 700);
     std::vector<std::array<int, 3>> modelist;
     for (int s = 0; s < (int)m.sites.size(); ++s) for (int o = 0; o < m.sites[(size_t)s].norb; ++o) for (int z = 0; z < m.sites[(size_t)s].nspin; ++z) modelist.push_back({s, o, z});
     const int N = (int)modelist.size();
@@ -42,8 +44,8 @@ static void wick_run(Ctx& c) {
     int pmode = (!m.balanced_spins() || c.k % 3 == 2) ? PM_IGNORE : PM_DEFAULT;
     Pipeline p; p.build_all(m, pmode);
     const double beta = m.beta;
-    c.model = m.describe(); c.canon = m.canon() + "|" + pm_name(pmode);
-    c.features.set("N", N).set("hclass", hclass).set("partition", pm_name(pmode)).set("blocks", p.nblocks());
+    c.model = m.describe(); c.canon = m.canon() + "|" + pm_name(pmode) + (cold ? "|cold" : "");
+    c.features.set("cold", cold).set("N", N).set("hclass", hclass).set("partition", pm_name(pmode)).set("blocks", p.nblocks());
     // h in the library's index order
     std::vector<int> idx((size_t)N); for (int a = 0; a < N; ++a) idx[(size_t)a] = p.index_of(modelist[(size_t)a][0], modelist[(size_t)a][1], modelist[(size_t)a][2]);
     CMat h = CMat::Zero(N, N); for (int a = 0; a < N; ++a) for (int b = 0; b < N; ++b) h(idx[(size_t)a], idx[(size_t)b]) = hm(a, b);
